@@ -211,11 +211,12 @@ func replay(c *core.Ctx, raw json.RawMessage) {
 	switch head.Part {
 	case "c":
 		var cc struct {
-			Choices   []int `json:"choices"`
-			Prequeued bool  `json:"prequeued"`
+			Choices   []int  `json:"choices"`
+			Prequeued bool   `json:"prequeued"`
+			Scenario  string `json:"scenario"`
 		}
 		json.Unmarshal(raw, &cc)
-		replayC(c, cc.Choices, cc.Prequeued)
+		replayC(c, cc.Choices, cc.Prequeued, cc.Scenario)
 	case "a":
 		replayA(c, ag, raw)
 	case "b":
